@@ -69,13 +69,13 @@ def _timedelta_arms(ctx) -> None:
 def run(ctx) -> None:
     ctx.explanation = EXPLANATION
     m = pmod("datetime")
-    AD.datetime_add_shape(ctx)
-    AD.neg_symmetry(ctx, m, "DateTime")
-    _timedelta_arms(ctx)
-    AD.carry_blocks(ctx)
-    AD.month_clamp_order(ctx)      # every add() runs the month-end clamp, whatever the units
+    ctx.step(AD.datetime_add_shape, ctx)
+    ctx.step(AD.neg_symmetry, ctx, m, "DateTime")
+    ctx.step(_timedelta_arms, ctx)
+    ctx.step(AD.carry_blocks, ctx)
+    ctx.step(AD.month_clamp_order, ctx)      # every add() runs the month-end clamp, whatever the units
     from . import C15
-    C15.clamp_dependencies(ctx)
+    ctx.step(C15.clamp_dependencies, ctx)
     sites = [s for s in recon.sites_in(m, ["DateTime.add"])]
     for s in sites:
         recon.check_site(ctx, s)
